@@ -2,6 +2,6 @@ SPECIFICATION Spec
 CONSTANTS
   MaxCoord = 6
   MaxLen = 4
-  Values = {0, 1, 2, 3, 4}
+  Values = {0, 2, 3}
 INVARIANTS KnotsReproduced WithinBracket KnotFromBothSides ContinuousAtEnds ExtrapolatesEndLine Local UnitsAndLinearity DefaultAxis AffineReproduced
 CHECK_DEADLOCK FALSE
